@@ -661,6 +661,76 @@ func lengthSweep(scratch string) {
 
 // runBehaviour replays one history of the Store model against a single real directory: nothing is
 // re-materialised between the steps, so salts, time stamps and aux bytes are carried by the real files.
+// userHashReuse: the library hands out UserHash values (store.NewUserHash); a caller may keep one and use it for
+// several operations.  Sequences on ONE value, with a write that fails in between (the work area is a regular file for
+// a moment): a failure changes nothing, the next operation works, the verdicts follow the last successful write.
+func userHashReuse(dir string) {
+	for _, adm := range []bool{false, true} {
+		for _, def := range setIDs {
+			e := Edge{Op: "noop", Def: def, Pre: map[string]FileState{}, Post: map[string]FileState{}}
+			sb := newSandbox(filepath.Join(dir, fmt.Sprintf("reuse-%v-%d", adm, def)), &e, 0)
+			d, err := store.NewDirFromConfig(sb.cfg)
+			must(err)
+			uh := store.NewUserHash(d, "alice")
+			tag := fmt.Sprintf("userhash-reuse:set%d", def)
+			if err := uh.Add(pws["p1"], adm); err != nil {
+				violate("C01", tag+":add-refused", err.Error(), nil, "")
+				continue
+			}
+			ext := ".user"
+			if adm {
+				ext = ".admin"
+			}
+			file := filepath.Join(sb.base, "alice"+ext)
+			before := concrete.Snapshot(sb.root)
+			tmp := filepath.Join(sb.base, ".tmp")
+			os.RemoveAll(tmp)
+			must(os.WriteFile(tmp, []byte("x"), 0600))
+			uerr := uh.Update(pws["p2"])
+			os.Remove(tmp)
+			must(os.MkdirAll(tmp, 0700)) // the work area as it was before
+			if uerr == nil {
+				violate("C15", tag+":update-succeeded-without-work-area", "", nil, "")
+				continue
+			}
+			if diff := concrete.DiffSnap(before, concrete.Snapshot(sb.root)); len(diff) > 0 {
+				violate("C15", tag+":failed-update-changed-store", fmt.Sprintf("Update on the value that had added the user failed (%v) and changed: %v", uerr, diff), nil, "")
+				continue
+			}
+			if ok, _, _, _, _ := uh.Authenticate(pws["p1"]); !ok {
+				violate("C01", tag+":verdict-after-failed-update", "the password of the last successful write is refused", nil, "")
+			}
+			if err := uh.Update(pws["p2"]); err != nil {
+				violate("C15", tag+":update-refused-after-failure", err.Error(), nil, "")
+				continue
+			}
+			ok1, _, _, _, _ := uh.Authenticate(pws["p1"])
+			ok2, _, _, _, _ := uh.Authenticate(pws["p2"])
+			if ok1 || !ok2 {
+				violate("C01", tag+":verdict-after-update", fmt.Sprintf("old password %v, new password %v", ok1, ok2), nil, "")
+			}
+			if err := uh.SetAdmin(!adm); err != nil {
+				violate("C15", tag+":setadmin-refused", err.Error(), nil, "")
+			}
+			if _, err := os.Stat(file); err == nil {
+				violate("C16", tag+":two-files-after-setadmin", file+" still exists", nil, "")
+			}
+			uh.Remove()
+			if ex, _, _ := uh.Exists(); ex {
+				violate("C01", tag+":exists-after-remove", "", nil, "")
+			}
+			if err := uh.Add(pws["p3"], adm); err != nil {
+				violate("C01", tag+":re-add-refused", err.Error(), nil, "")
+			} else if ok, _, _, _, _ := uh.Authenticate(pws["p2"]); ok {
+				violate("C01", tag+":old-password-after-re-add", "", nil, "")
+			}
+			mu.Lock()
+			out.Executions += 12
+			mu.Unlock()
+		}
+	}
+}
+
 func runBehaviour(dir string, steps []Edge) {
 	if len(steps) == 0 {
 		return
@@ -749,6 +819,7 @@ func main() {
 		}
 		close(bch)
 		bwg.Wait()
+		userHashReuse(filepath.Join(*scratch, "reuse"))
 	}
 	if *edgesFile == "" {
 		*edgesFile = "/dev/null"
